@@ -1891,6 +1891,14 @@ feature! {
                 return Some(NonNull::from(self).cast());
             }
 
+            // An empty `Vec` holds no subscribers: like `Option::None`, it must
+            // behave as if it were absent. Its `max_level_hint` of `OFF` only
+            // means "nothing here wants anything", so tell `Layered` not to let
+            // that hint disable the subscribers around it.
+            if id == TypeId::of::<NoneLayerMarker>() && self.is_empty() {
+                return Some(NonNull::from(&NONE_LAYER_MARKER).cast());
+            }
+
             // Someone is looking for per-subscriber filters. But, this `Vec`
             // might contain subscribers with per-subscriber filters *and*
             // subscribers without filters. It should only be treated as a
